@@ -230,9 +230,40 @@ def run_impl(cases, backend='s1', workdir=None, flags=(), tag='cases'):
     inp = os.path.join(workdir, tag + '.txt')
     write_cases(inp, cases)
     p = subprocess.run([HARNESS[backend], inp] + list(flags), stdout=subprocess.PIPE, stderr=subprocess.PIPE, timeout=3600)
-    if p.returncode != 0:
-        raise BuildError('harness %s failed: rc=%s %s' % (backend, p.returncode, p.stderr.decode(errors='replace')[-2000:]))
     out = p.stdout.decode(errors='surrogateescape')
+    crashes = 0
+    todo = list(cases)
+    while p.returncode != 0:
+        # the process died inside derive() (stack overflow, abort, exit: nothing catch_unwind can turn into a value).  stdout is
+        # line-buffered: the case that was being expanded is the first one without an OUT line.  It is recorded as a panic with the
+        # signal as payload - an expansion that takes the process down is C16's subject like any panic - and the run resumes after it
+        crashes += 1
+        done = parse_lines(out)
+        culprit = None
+        for i, (cid, text) in enumerate(todo):
+            if 'OUT' not in done.get(cid, {}):
+                culprit = i
+                break
+        if culprit is None:
+            raise BuildError('harness %s failed: rc=%s %s' % (backend, p.returncode, p.stderr.decode(errors='replace')[-2000:]))
+        cid = todo[culprit][0]
+        why = (p.stderr.decode(errors='replace').strip().splitlines() or ['?'])[-1][:160].replace('"', "'").replace('\\', '/')
+        keep = []
+        for line in out.split('\n'):
+            keep.append(line)
+        # drop the partial record of the culprit, then write a complete one
+        idx = out.rfind('CASE %s\n' % cid)
+        head = out[:idx] if idx >= 0 else out
+        partial = parse_lines(out[idx:]) .get(cid, {}) if idx >= 0 else {}
+        rec = 'CASE %s\n' % cid + ''.join('%s %s\n' % (k, v) for k, v in partial.items() if k != 'OUT')
+        rec += 'OUT (panic "process died (rc=%s): %s")\n' % (p.returncode, why)
+        out = head + rec
+        todo = todo[culprit + 1:]
+        if not todo or crashes >= 12:
+            break          # enough culprits: the rest of this set is left unexpanded (records without an outcome are skipped)
+        write_cases(inp + '.rest', todo)
+        p = subprocess.run([HARNESS[backend], inp + '.rest'] + list(flags), stdout=subprocess.PIPE, stderr=subprocess.PIPE, timeout=3600)
+        out += p.stdout.decode(errors='surrogateescape')
     with open(os.path.join(workdir, tag + '.' + backend + '.out'), 'w', errors='surrogateescape') as f:
         f.write(out)
     return parse_lines(out)
